@@ -50,7 +50,11 @@ def convert_to_payload(dataclass_type: type, msg_id: int | None = None) -> None:
     dataclass_type.names = [field.name for field in dt_fields]  # type: ignore[attr-defined]
     dataclass_type.format_list = [type_map(type_hints[field.name]) for field in  # type: ignore[attr-defined]
                                   dt_fields]
-    setattr(sys.modules[dataclass_type.__module__], dataclass_type.__name__, vp_compile(dataclass_type))
+    # Keep the constructor written by @dataclass: it assigns every field and, unlike the compiled one, runs default factories.
+    dataclass_init = dataclass_type.__init__
+    vp_compile(dataclass_type)
+    dataclass_type.__init__ = dataclass_init  # type: ignore[misc]
+    setattr(sys.modules[dataclass_type.__module__], dataclass_type.__name__, dataclass_type)
 
 
 class DataClassPayload(VariablePayload):
